@@ -6,7 +6,7 @@ import typing as T
 
 from ..core import Module, attr_chain, walk_no_nested, norm, short
 from .c06_types import Ty, SET_OPS, base_name
-from .c06_order import (FC, Site, FuncNode, INSENSITIVE_FUNCS, PASSTHROUGH_FUNCS, SET_MUTATORS, SET_QUERIES, ITER_MUTATORS)
+from .c06_order import (UNORDERED, FC, Site, FuncNode, INSENSITIVE_FUNCS, PASSTHROUGH_FUNCS, SET_MUTATORS, SET_QUERIES, ITER_MUTATORS)
 from .c06_consume import OrderAnalyzer, V, _callee_last
 
 CANDIDATES = (ast.Name, ast.Attribute, ast.Call, ast.BinOp, ast.Set, ast.SetComp, ast.IfExp, ast.BoolOp, ast.Subscript, ast.NamedExpr)
@@ -73,6 +73,43 @@ class SiteScanner(OrderAnalyzer):
                     yield x.value
 
     # ------------------------------------------------------------------
+    def is_sequence(self, e: ast.AST, fc: FC, depth: int = 0) -> bool:
+        """e is a list / tuple whose order is written in the source (a priority sequence), by display, local definition or annotation."""
+        if isinstance(e, (ast.List, ast.Tuple)):
+            return True
+        if isinstance(e, ast.Name) and depth < 3:
+            o = fc.owner(e.id)
+            if o is None:
+                r = self.res.resolve_global(fc.mod, e.id)
+                if r is not None and r[0].has_assign(r[1]):
+                    return isinstance(r[0].assign_value(r[1]), (ast.List, ast.Tuple))
+                return False
+            ann = o.anns.get(e.id) or o.params.get(e.id)
+            if ann is not None:
+                return base_name(ann) in ('List', 'list', 'Tuple', 'tuple', 'Sequence')
+            vals = o.values.get(e.id, [])
+            return bool(vals) and all(self.is_sequence(v, o, depth + 1) for v in vals)
+        return False
+
+    def priority_discarded(self, s: Site, fc: FC) -> T.Optional[str]:
+        """The unordered source is filtered by membership in a priority sequence and collected in the *source's* order:
+        `[v for k, v in os.environ.items() if k in PRIORITY]` - the order written in PRIORITY is lost."""
+        p = self.parent(fc, s.value)
+        targets: T.Set[str] = set()
+        tests: T.List[ast.AST] = []
+        if isinstance(p, ast.comprehension):
+            targets = {n.id for n in ast.walk(p.target) if isinstance(n, ast.Name)}
+            tests = list(p.ifs)
+        elif isinstance(p, (ast.For, ast.AsyncFor)):
+            targets = {n.id for n in ast.walk(p.target) if isinstance(n, ast.Name)}
+            tests = [n.test for st in p.body for n in walk_no_nested(st) if isinstance(n, ast.If)]
+        for t in tests:
+            for c in ast.walk(t):
+                if isinstance(c, ast.Compare) and len(c.ops) == 1 and isinstance(c.ops[0], ast.In) and isinstance(c.left, ast.Name) \
+                        and c.left.id in targets and self.is_sequence(c.comparators[0], fc):
+                    return f'`{short(c, 50)}`: {short(c.comparators[0], 30)} is a sequence in priority order, but the result follows the order of the source'
+        return None
+
     def _site(self, fc: FC, node: ast.AST, value: ast.AST, t: Ty, consumer: str, v: V) -> Site:
         verdict = {'benign': 'benign', 'escapes': 'violation', 'sensitive': 'violation', 'unknown': 'info', 'sanitised': 'sanitised'}[v[0]]
         if t.kind != 'set' and verdict == 'violation':
@@ -123,6 +160,8 @@ class SiteScanner(OrderAnalyzer):
             pp = self.parent(fc, p)
             if isinstance(pp, ast.Call) and pp.func is p:
                 m = p.attr
+                if attr_chain(e) == 'os.environ':
+                    return None   # lookup / update by key, or items()/keys()/values() (typed and judged at their own consumer)
                 if m in SET_MUTATORS or m in SET_QUERIES:
                     return None   # set operation on the set itself
                 if m == 'pop':
@@ -206,6 +245,9 @@ class SiteScanner(OrderAnalyzer):
 
     def _call_site(self, call: ast.Call, arg: ast.AST, e: ast.AST, t: Ty, fc: FC, starred: bool = False) -> T.Optional[Site]:
         m = _callee_last(call)
+        if 'environment variables' in t.why and t.why.startswith(UNORDERED) and not starred and \
+                (m in ('dict', 'OrderedDict', 'update', 'EnvironmentVariables', 'ChainMap') or attr_chain(e) == 'os.environ'):
+            return None       # the mapping is copied / handed on as a mapping: consumers look variables up by name
         cn = attr_chain(call.func) or m
         is_attr = isinstance(call.func, ast.Attribute)
         if m == 'sorted' and not is_attr:
